@@ -2,7 +2,10 @@ module verifharness
 
 go 1.25.0
 
-require go.dedis.ch/kyber/v4 v4.0.0
+require (
+	go.dedis.ch/kyber/v4 v4.0.0
+	golang.org/x/crypto v0.48.0
+)
 
 require (
 	github.com/bits-and-blooms/bitset v1.24.4 // indirect
@@ -10,7 +13,6 @@ require (
 	github.com/consensys/gnark-crypto v0.19.2 // indirect
 	github.com/kilic/bls12-381 v0.1.0 // indirect
 	go.dedis.ch/fixbuf v1.0.3 // indirect
-	golang.org/x/crypto v0.48.0 // indirect
 	golang.org/x/sys v0.42.0 // indirect
 )
 
